@@ -194,7 +194,15 @@ func runC33Post(c *Ctx) {
 	}
 	cfg.MaxVersion = srvMax
 	cfg.NextProtos = of.ALPN
-	w := c.NewWorld(simrt.Config{StepCap: 80000})
+	// a third of the worlds have a second client task that writes while the first one reads (one
+	// reader and one writer are allowed on a connection); the scheduler may then switch at every lock
+	// acquisition, so a post-handshake message is processed by Read in the middle of a Write
+	auxWriter := ch.Bool(33, "concurrent-writer")
+	wcfg := simrt.Config{StepCap: 80000}
+	if auxWriter {
+		wcfg = simrt.Config{StepCap: 120000, LockYield: true, UnlockYield: ch.Bool(50, "unlockyield"), PreemptPct: 20 + 20*ch.Pick(3, "preempt")}
+	}
+	w := c.NewWorld(wcfg)
 	var link *simnet.Link
 	var calls []string
 	var refErr error
@@ -220,6 +228,24 @@ func runC33Post(c *Ctx) {
 		}
 		o.CDone = true
 		useConn(u, &calls)
+	}
+	if auxWriter {
+		nw, gap := ch.Range(1, 6, "aux-writes"), ch.Range(0, 3, "aux-gap")
+		sp.AuxClient = func(o *ConnOutcome) {
+			for !o.CDone {
+				if o.CErr != nil || o.BuildErr != nil || o.CPanic != nil {
+					return
+				}
+				simrt.WaitSteps(2)
+			}
+			for i := 0; i < nw; i++ {
+				if _, err := o.U.Write([]byte("from-the-writer-task")); err != nil {
+					return
+				}
+				simrt.WaitSteps(1 + gap)
+			}
+		}
+		c.Fault("concurrent-writer", 1)
 	}
 	sp.ServerFn = func(o *ConnOutcome, conn net.Conn) {
 		conn.SetDeadline(time.Now().Add(40 * time.Second))
